@@ -66,6 +66,21 @@ def send_all_summary(P, g):
     return (k, pk)
 
 
+_KNOWN_FNS = None
+
+
+def _is_new_function(P, fid):
+    """not a function (or closure of a function) of the pinned tree"""
+    global _KNOWN_FNS
+    if _KNOWN_FNS is None:
+        import json as _json
+        import os as _os
+        with open(_os.path.join(_os.path.dirname(_os.path.abspath(__file__)), "known_functions.json")) as fh:
+            _KNOWN_FNS = set(_json.load(fh).get("functions", []))
+    base = fid.split("::{closure")[0]
+    return base not in _KNOWN_FNS
+
+
 def _const_bits(f, op):
     """bits of the constant an operand is (through plain copies), else None"""
     seen = set()
@@ -143,6 +158,11 @@ def c04_r3(ctx):
             # receiver of send is this iteration's element
             so = cl.origins_of_operand(s.args[0])
             elem_ok = all(o[:len(e)] == e for o in so for e in lp["elem"]) and so
+            if not elem_ok and so and any(o[0][0] == "call" and o[0][3].split("::")[0] not in ("std", "core", "alloc") and o[0][3] not in ctx.P.fns
+                                          for o in so):
+                # the sender is what a method of a crate-local trait hands out (`outlet.sender()`):
+                # which impl runs depends on a type the inlined generic code no longer shows
+                raise AnalysisError("idiom not recognised: the sender used in %s comes out of an unresolved trait method (%s)" % (cl.id, sorted(o[0][3] for o in so if o[0][0] == "call")[0]))
             if not elem_ok:
                 ctx.viol(key + ("receiver",), "send is not on this iteration's sender", s.where)
             # (a) every iteration sends
@@ -191,6 +211,10 @@ def c04_r3(ctx):
         # every return goes through a loop exhaustion or a SendError arm
         r = cl.reach([0], avoid_edges=none_edges | senderr_edges)
         bad = [b for b in cl.return_blocks if b in r]
+        if bad and any(g.calls_to(SEND) and g.id != cl.id and not g.body.get("in_test") and
+                       (_is_new_function(ctx.P, g.body.get("root") or g.id) or g.body.get("parent") == cl.id or g.body.get("root") == cl.id)
+                       for g in ctx.P.fns.values() if g.id not in (leaf.id, node.id)):
+            raise AnalysisError("idiom not recognised: %s sends through a helper or an iterator adaptor's closure that was not dissolved into it" % cl.id)
         if bad:
             ctx.viol((cl.id, "return-without-send"), "a return path of the thread closure sends nothing to its dependents", cl.where(bad[0]))
         else:
@@ -215,6 +239,13 @@ def c05_r1(ctx):
         for s in fn.calls_to(SEND):
             ctx.inst("send site", s.where)
             if fn.id not in allowed:
+                root = fn.body.get("root") or fn.body.get("parent") or fn.id
+                if _is_new_function(ctx.P, root) or (fn.kind == "closure" and (fn.body.get("parent") in allowed or fn.body.get("root") in allowed)
+                                                     and fn.id not in (leaf.id, node.id)):
+                    # a send inside a helper (or a closure handed to an iterator adaptor) that the
+                    # loader could not dissolve into the thread closures: who calls it, and for
+                    # which senders, is not read
+                    raise AnalysisError("idiom not recognised: packets are sent from %s, a function that is not part of the pinned tree and was not inlined" % fn.id)
                 ctx.viol((fn.id, "foreign-send"), "Sender::send outside the thread closures of build", s.where)
             else:
                 ctx.ok()
